@@ -45,6 +45,8 @@ type colInfo struct {
 	hidden  int
 	notnull bool
 	dflt    sql.NullString
+	pk      int
+	rowid   bool // the column is an alias of the rowid (sole INTEGER PRIMARY KEY of a rowid table): it cannot hold NULL
 }
 
 func snapshot(db *sql.DB) (map[string]*snap, error) {
@@ -58,7 +60,7 @@ func snapshot(db *sql.DB) (map[string]*snap, error) {
 			continue
 		}
 		s := &snap{sql: m.SQL, cols: map[string]colInfo{}, rows: map[string]map[string]string{}}
-		rows, err := db.Query("SELECT name, lower(type), \"notnull\", dflt_value, hidden FROM pragma_table_xinfo(?)", m.Name)
+		rows, err := db.Query("SELECT name, lower(type), \"notnull\", dflt_value, hidden, pk FROM pragma_table_xinfo(?)", m.Name)
 		if err != nil {
 			return nil, err
 		}
@@ -67,7 +69,7 @@ func snapshot(db *sql.DB) (map[string]*snap, error) {
 			var n string
 			var ci colInfo
 			var nn int
-			if err := rows.Scan(&n, &ci.typ, &nn, &ci.dflt, &ci.hidden); err != nil {
+			if err := rows.Scan(&n, &ci.typ, &nn, &ci.dflt, &ci.hidden, &ci.pk); err != nil {
 				rows.Close()
 				return nil, err
 			}
@@ -76,6 +78,18 @@ func snapshot(db *sql.DB) (map[string]*snap, error) {
 			names = append(names, n)
 		}
 		rows.Close()
+		npk := 0
+		for _, ci := range s.cols {
+			if ci.pk > 0 {
+				npk++
+			}
+		}
+		for n, ci := range s.cols {
+			if ci.pk == 1 && npk == 1 && ci.typ == "integer" && !strings.Contains(strings.ToUpper(m.SQL), "WITHOUT ROWID") {
+				ci.rowid = true
+				s.cols[n] = ci
+			}
+		}
 		if _, ok := s.cols["k"]; ok {
 			var sel []string
 			for _, n := range names {
@@ -112,7 +126,10 @@ func snapshot(db *sql.DB) (map[string]*snap, error) {
 	return out, nil
 }
 
-var dataErrors = []string{"constraint failed", "NOT NULL", "UNIQUE", "CHECK", "FOREIGN KEY", "foreign key", "cannot store", "datatype mismatch", "Cannot add a", "cannot add a", "foreign-key violation", "violat", "foreign_key_check"}
+var dataErrors = []string{"constraint failed", "NOT NULL", "UNIQUE", "CHECK", "FOREIGN KEY", "foreign key", "cannot store", "datatype mismatch", "Cannot add a", "cannot add a", "foreign-key violation", "violat", "foreign_key_check",
+	// ALTER TABLE ADD COLUMN on a STRICT table checks the DEFAULT against the column type; CREATE TABLE does not. The
+	// desired definition itself is unusable (its default can never be stored), the engine refuses it, nothing is lost.
+	"type mismatch on DEFAULT"}
 
 func isDataError(err error) bool {
 	for _, s := range dataErrors {
@@ -281,7 +298,11 @@ func checkCase(c Case) (Outcome, error) {
 				if arow[col] == brow[col] {
 					continue
 				}
-				// the one documented transformation: NULL under a column that became NOT NULL DEFAULT d becomes d
+				// a column that became the rowid alias (sole INTEGER PRIMARY KEY) cannot hold NULL: SQLite assigns a rowid
+				if brow[col] == "NULL" && ai.rowid && !bi.rowid && arow[col] != "NULL" {
+					continue
+				}
+				// the documented transformation: NULL under a column that became NOT NULL DEFAULT d becomes d
 				if brow[col] == "NULL" && ai.notnull && ai.dflt.Valid {
 					want, err := defaultAs(db.Raw, ai.typ, ai.dflt.String)
 					if err == nil && want == arow[col] {
